@@ -1042,6 +1042,32 @@ pub fn generate_run_small_values(_rng: &mut Rng, _n: usize, _tier: &str) -> Vec<
             }
         }
     }
+    // every shape of the operator position: atom, one-element list of an atom (the ((X) . args) form), of a
+    // pair, of a list, longer / improper / empty inner lists, nested forms — applied to every shape of the
+    // operand list; each is an error or a value, never a panic, in both dialects
+    {
+        let a = |b: &[u8]| T::Atom(b.to_vec());
+        let heads: Vec<T> = vec![
+            a(&[16]), a(&[]), a(&[1]), a(&[2]), a(&[0xff, 0xff]),
+            T::list(vec![a(&[16])]), T::list(vec![a(&[])]), T::list(vec![a(&[1])]), T::list(vec![a(&[0x80, 0, 0, 1])]),
+            T::list(vec![T::pair(a(&[1]), a(&[2]))]), T::list(vec![T::list(vec![a(&[16]), a(&[1]), a(&[2])])]),
+            T::list(vec![T::list(vec![a(&[16])])]), T::list(vec![T::pair(T::nil(), T::nil())]),
+            T::pair(a(&[16]), a(&[5])), T::pair(T::pair(a(&[1]), a(&[2])), a(&[5])), T::list(vec![a(&[16]), a(&[17])]),
+            T::list(vec![T::pair(a(&[1]), a(&[2])), a(&[3])]), T::pair(T::nil(), T::nil()),
+        ];
+        let tails: Vec<T> = vec![T::nil(), T::list(vec![a(&[3])]), T::list(vec![a(&[1]), a(&[1])]), a(&[3]), T::pair(a(&[1]), a(&[3])),
+                                 T::list(vec![T::pair(a(&[1]), a(&[7])), T::pair(a(&[1]), a(&[8]))])];
+        for h in &heads {
+            for t in &tails {
+                for dialect in ["chia", "runtime"] {
+                    for &f in &[0u32, 0x2400] {
+                        out.push(format!("RUN v{} {} {:x} 0 - {} {}", id, dialect, f, trees::to_hex(&T::pair(h.clone(), t.clone())), "ff8180ff8181ff818280"));
+                        id += 1;
+                    }
+                }
+            }
+        }
+    }
     // the tree operator on one tree holding all small values (inline) and the same values as 2-byte atoms
     let all = T::list(vals.iter().filter(|v| **v >= 0 && **v <= 300).map(|v| int(*v)).collect());
     for &f in &flag_sets {
